@@ -29,6 +29,11 @@ SchemeText(k) == IF k = "other" THEN "http" ELSE k
 Hosts == { [class |-> "absent",   text |-> ""],
            [class |-> "name",     text |-> "localhost"],
            [class |-> "ipv4",     text |-> "192.168.0.20"],
+           \* a host name with capitals, a digit and a hyphen (a receiver on the LAN): the endpoint of a
+           \* tcp / udp specification is that text.  For ws:// the url crate lower-cases the host of the
+           \* string form while the table form keeps the text, so no obligation is stated there (totality
+           \* only; DESIGN.md 12.2)
+           [class |-> "mixed",    text |-> "Feeder-01.Example"],
            [class |-> "nonascii", text |-> "héllo"],
            [class |-> "device",   text |-> "serial=00000001"] }
 
@@ -106,7 +111,7 @@ FrameWellFormed(p) ==
      THEN /\ p.host.class \in {"absent", "device"}
           /\ p.port.class = "absent"
           /\ p.path.class = "absent"
-     ELSE /\ p.host.class \in {"name", "ipv4"}
+     ELSE /\ (p.host.class \in {"name", "ipv4"} \/ (p.host.class = "mixed" /\ p.scheme \in {"tcp", "udp"}))
           /\ PortValid(p.port)
           /\ (p.path.class = "present" => p.scheme = "ws")
 SepRefsOf(rs) == { [sep |-> "@", ref |-> r] : r \in {x \in rs : x.class = "absent"} }
